@@ -20,7 +20,7 @@ from symex import show, walk, place_ty
 EXPLANATION = __doc__
 TRUSTED = ["rustc / extractor", "documented panic conditions of std / num-bigint / hmac / sha1 / rand APIs (allow-list in rules/c14.py)", "HMAC accepts keys of any length (Hmac::new_from_slice never fails)", "allocation failure and OS RNG failure are out of scope"]
 NOT_DECIDED = ["panics inside dependencies other than their documented preconditions", "srp-fast-math (rug) preconditions: configuration cannot be built here"]
-FULL_FLOORS = {"entry-points": 1, "bounds": 100, "overflow": 6, "div-by-zero": 5, "range-index": 8, "copy-len": 3, "reduced32": 4, "unwrap": 6, "bigint-precondition": 3, "swap": 2, "step-by": 2}
+FULL_FLOORS = {"entry-points": 1, "bounds": 100, "overflow": 6, "div-by-zero": 5, "range-index": 8, "copy-len": 1, "reduced32": 4, "unwrap": 5, "bigint-precondition": 3, "swap": 2, "step-by": 2}
 DEFAULT_FEATURES = {"srp-default-math", "tbc-header", "wrath-header", "integrity"}
 
 
@@ -29,7 +29,7 @@ def floors_for(feats):
     configurations (thorough tier) contain fewer functions: the core SRP obligations remain"""
     if DEFAULT_FEATURES <= set(feats):
         return FULL_FLOORS
-    return {"entry-points": 1, "bounds": 30, "overflow": 4, "div-by-zero": 3, "range-index": 5, "copy-len": 3, "reduced32": 4, "bigint-precondition": 3, "step-by": 2}
+    return {"entry-points": 1, "bounds": 30, "overflow": 4, "div-by-zero": 3, "range-index": 4, "copy-len": 1, "reduced32": 4, "bigint-precondition": 3, "step-by": 2}
 
 PEER_MODULES = ("server", "client", "vanilla_header", "tbc_header", "wrath_header", "normalized_string")
 
@@ -261,8 +261,12 @@ def call_obligation(ctx, rep, world, pr, p, b, bi, t, info, n_site, r32_sinks):
             ok = False
             if d is not None and d[0] == "deref" and util.is_call(strip(d[1])) and strip(d[1])[1].endswith("index_mut"):
                 r = strip(d[1])[2][1]
+                e = None
                 if r[0] == "agg" and r[2] == "std::ops::Range" and r[4][0][:2] == ("int", 0):
                     e = util.numnorm(r[4][1])
+                elif r[0] == "agg" and r[2] == "std::ops::RangeTo":
+                    e = util.numnorm(r[4][0])
+                if e is not None:
                     src = strip(args[1])
                     while util.is_call(src) and (src[1] in util.IDENT_CALLS or src[1].endswith("::to_vec") or "deref" in src[1]):
                         src = strip(src[2][0])
@@ -399,6 +403,11 @@ def reduced32(ctx, rep, sinks, clo):
             f = c03.bigf(ctx, se, canon(ctx, se, arg))
             ok = False
             why = c03.show_f(f)[:120]
+            if canon(ctx, se, arg) == ("param", 1) and b.path in sinks:
+                # a copy site handing its own argument on: the obligation is on *its* callers
+                seen_sites += 1
+                rep.ok("reduced32", b.path, "->" + sink.replace("std::convert::From<bigint::Integer>", "From")[:70], "delegates its own (Reduced32) argument", b.loc(bi))
+                continue
             if f[0] in ("modpow", "rem"):
                 m = f[3] if f[0] == "modpow" else f[2]
                 if m[0] == "int":
